@@ -573,6 +573,47 @@ async fn data_mode(out: &str, scenarios: Option<String>, classes: bool, random: 
         }
     }
 
+    // (a0) root data-map size boundary (small build): the serialised first-level data map of an input of n2-1 chunks is
+    // about MAX bytes long and varies with the chunk hashes (msgpack writes a byte >= 128 in two bytes). Sweep seeded
+    // inputs of that chunk count until the serialised map is exactly MAX-1, MAX and MAX+1 bytes (fits / fits exactly /
+    // must be packed into a second level); the inputs found are then judged like every other input. The search itself
+    // uses the crate's encrypt and this file's mirror of DataMapLevel; misses are recorded.
+    if let (true, true, Some(n2)) = (small, classes, n2) {
+        let targets = [max - 1, max, max + 1];
+        let mut found: Vec<Option<InputSpec>> = vec![None, None, None];
+        let mut closest: Vec<i64> = vec![i64::MAX, i64::MAX, i64::MAX];
+        let mut tries = 0usize;
+        let budget = if thorough { 4000 } else { 600 };
+        'sweep: for nchunks in [n2 - 1, n2, n2.saturating_sub(2).max(3)] {
+            for t in 0..budget {
+                if found.iter().all(|f| f.is_some()) {
+                    break 'sweep;
+                }
+                let s = InputSpec { len: nchunks * max - (t % 5), content: "rand".into(), seed: seed.wrapping_add(5000 + t as u64) };
+                let Ok((map, _chunks)) = self_encryption::encrypt(gen_content(&s)) else { continue };
+                let Ok(ser) = rmp_serde::to_vec(&LevelMirror::First(map)) else { continue };
+                tries += 1;
+                for (i, want) in targets.iter().enumerate() {
+                    let d = ser.len() as i64 - *want as i64;
+                    if d.abs() < closest[i].abs() {
+                        closest[i] = d;
+                    }
+                    if d == 0 && found[i].is_none() {
+                        found[i] = Some(s.clone());
+                    }
+                }
+            }
+        }
+        w.tr.emit(json!({"ev": "RootSweep", "max": max, "tries": tries, "targets": targets, "found": found.iter().map(|f| f.as_ref().map(|s| s.len).unwrap_or(0)).collect::<Vec<_>>(),
+            "closest": closest.iter().map(|d| if *d == i64::MAX { 99999 } else { *d }).collect::<Vec<_>>()}));
+        for (i, f) in found.iter().enumerate() {
+            if let Some(s) = f {
+                let cls = ["rootsz-M-1", "rootsz-M", "rootsz-M+1"][i];
+                w.run_input(s, cls, "class", &[("public".to_string(), vec![1usize], false), ("private".to_string(), vec![0usize], true)], 0).await;
+            }
+        }
+    }
+
     // (a) TLC scenarios: levels, n1 (for one-level trees), api, batch, order
     if let Some(path) = scenarios {
         for (i, sc) in read_ndjson(&path).into_iter().enumerate() {
